@@ -6,6 +6,8 @@
 From Coq Require Import ZArith List.
 From BS Require Import Model.Base Model.Num Model.LibVal Gen.ArgSpecs Model.LibSeq Proofs.C15.
 From BS Require Import Proofs.C15spec Proofs.C15histd Proofs.C15histe Proofs.C15histf.
+From BS Require Import Proofs.C15spec2 Proofs.C15str Proofs.C15strb Proofs.C15histg Proofs.C15aeq Proofs.C15histi Proofs.C15histj Proofs.C15histk Proofs.C15spec3 Proofs.C15histl Proofs.C15histm.
+From Coq Require Import SpecFloat.
 Import ListNotations.
 Local Open Scope Z_scope.
 
@@ -281,3 +283,274 @@ Print Assumptions C15_url_total_on_scalars.
 Example C15_url_nonvacuous : url_safe_of (U "urlEncode") = Some (U "':/&+") /\ url_safe_of (U "urlEncodeComponent") = Some (U "'")
   /\ url_quote (U "'") (U "a b/\0000e9") = Some (U "a%20b%2F%C3%A9").
 Proof. vm_compute. auto. Qed.
+
+(* ====================================================================== HISTORY, third round: the STRING functions inside histories
+   Proofs/C15spec2.v part A: each string function is a PURE operation of the abstract machine (the abstract state does not change;
+   stringSplit binds ONE fresh sequence), specified with plain list operations on code-point lists:
+     stringLength = length; stringCharCodeAt = nth_error; stringStartsWith / EndsWith = equality with firstn / skipn;
+     stringIndexOf = the LEAST position in [index, length] where the needle is a prefix of skipn (find over seq);
+     stringLastIndexOf = the GREATEST position in [0, index] (find over rev seq); stringSlice = skipn / firstn (a bound beyond the
+     length fails); stringRepeat = concat (repeat ..); stringSplit = cut at the least occurrence, go on after it;
+     stringReplace = join the new text between the pieces of the split (empty `old`: before every code point and at the end);
+     stringTrim = drop the white code points at both ends; stringFromCharCode = map over code points < 0x110000;
+     regexEscape / urlEncode / urlEncodeComponent = the encoder itself (their independent characterisations are C15_regex_escape
+     and C15_url_roundtrip above).
+   FAILURE cases are part of the abstract operations (SFail + documented failure value, state unchanged): wrong types, missing /
+   extra arguments, non-integral / negative indices, an index >= length (stringIndexOf / LastIndexOf: -1; stringCharCodeAt: null),
+   an inf / nan index (int() raises: null, also for the functions whose documented failure value is -1), stringSplit with an
+   empty separator, stringFromCharCode beyond 0x10FFFF, urlEncode of a lone surrogate. *)
+Example C15_OPS_S : map fst spec_table_s = map fst spec_table ++
+  [U "stringCharCodeAt"; U "stringEndsWith"; U "stringStartsWith"; U "stringFromCharCode"; U "stringIndexOf"; U "stringLastIndexOf";
+   U "stringLength"; U "stringRepeat"; U "stringReplace"; U "stringSlice"; U "stringSplit"; U "stringTrim";
+   U "regexEscape"; U "urlEncode"; U "urlEncodeComponent"].
+Proof. reflexivity. Qed.
+
+(* STEP, every function of OPS_S (35), EVERY argument list, every heap *)
+Theorem C15_history_step_with_strings : forall f, in_OPS_s f = true ->
+  forall args h, abs_call (lib f args h) = spec_call_s f args (abs h).
+Proof. exact spec_call_s_refines. Qed.
+Print Assumptions C15_history_step_with_strings.
+
+(* HISTORY with strings: the commuting square for any list of statements whose calls are OPS_S calls, from ANY state *)
+Theorem C15_history_with_strings : forall ops s, forallb op_in_OPS_s ops = true ->
+  abs_st (fold_left run_op ops s) = fold_left spec_step_s ops (abs_st s).
+Proof. exact history_refines_s. Qed.
+Print Assumptions C15_history_with_strings.
+
+(* OPS_S extends OPS conservatively (C15_history is the restriction of C15_history_with_strings) *)
+Theorem C15_strings_conservative : forall f, in_OPS f = true ->
+  in_OPS_s f = true /\ forall args m, spec_call_s f args m = spec_call f args m.
+Proof. intros f I. split; [apply in_OPS_in_OPS_s; exact I | apply spec_call_s_conservative; exact I]. Qed.
+Print Assumptions C15_strings_conservative.
+
+(* what the string specifications MEAN (sanity of the spec itself, independent of the model) *)
+Theorem C15_spec_prefix_suffix : forall p s,
+  (starts_with p s = true <-> exists t, s = p ++ t) /\ (ends_with p s = true <-> exists t, s = t ++ p).
+Proof. intros. split; [apply starts_with_iff | apply ends_with_iff]. Qed.
+Print Assumptions C15_spec_prefix_suffix.
+Theorem C15_spec_first_occurrence : forall sub s from,
+  match first_occ sub s from with
+  | Some i => (from <= i <= length s)%nat /\ (exists t, skipn i s = sub ++ t)
+              /\ forall j, (from <= j < i)%nat -> ~ exists t, skipn j s = sub ++ t
+  | None => forall j, (from <= j <= length s)%nat -> ~ exists t, skipn j s = sub ++ t
+  end.
+Proof. intros. destruct (first_occ sub s from) eqn:E; [apply first_occ_least; exact E | apply first_occ_none; exact E]. Qed.
+Print Assumptions C15_spec_first_occurrence.
+Theorem C15_spec_last_occurrence : forall sub s upto,
+  match last_occ sub s upto with
+  | Some i => (i <= upto)%nat /\ (i <= length s)%nat /\ (exists t, skipn i s = sub ++ t)
+              /\ forall j, (i < j <= upto)%nat -> (j <= length s)%nat -> ~ exists t, skipn j s = sub ++ t
+  | None => forall j, (j <= upto)%nat -> (j <= length s)%nat -> ~ exists t, skipn j s = sub ++ t
+  end.
+Proof. exact last_occ_greatest. Qed.
+Print Assumptions C15_spec_last_occurrence.
+Theorem C15_spec_split_replace : forall s sep, sep <> [] ->
+  join_with sep (split_on sep s) = s /\ replace_all s sep sep = s
+  /\ (forall new, first_occ sep s 0 = None -> replace_all s sep new = s).
+Proof. intros s sep NE. split; [apply split_on_join; exact NE|]. split; [apply replace_all_same; exact NE|]. intros. apply replace_all_absent; auto. Qed.
+Print Assumptions C15_spec_split_replace.
+Theorem C15_spec_trim : forall s, exists a b, s = a ++ trim s ++ b /\ forallb U_space a = true /\ forallb U_space b = true
+  /\ match trim s with c :: _ => U_space c = false | [] => True end
+  /\ match rev (trim s) with c :: _ => U_space c = false | [] => True end.
+Proof. exact trim_sound. Qed.
+Print Assumptions C15_spec_trim.
+
+(* non-vacuity: 27 statements mixing strings, arrays and objects (split a string, trim the pieces, push them, search in
+   strings with an int / a float-spelled / an infinite index, slice, replace, repeat, a split result stored in an object and read
+   back, code points, failures: index >= length (-1), inf index (null), empty separator (null), wrong type (0)); both machines by
+   vm_compute *)
+Definition c15_s (s : str) : arg := ALit (VStr s).
+Definition c15_hist_s : list op :=
+  [ OCall (U "stringSplit") [c15_s (U "  a,b,,c "); c15_s (U ",")];                    (* v0 = ["  a","b","","c "], fresh *)
+    OCall (U "arrayNew") [];                                                            (* v1 = [] *)
+    OCall (U "arrayGet") [AVar 0; c15_i 0];
+    OCall (U "stringTrim") [AVar 2];                                                    (* "a" *)
+    OCall (U "arrayPush") [AVar 1; AVar 3];
+    OCall (U "arrayGet") [AVar 0; c15_i 3];
+    OCall (U "stringTrim") [AVar 5];                                                    (* "c" *)
+    OCall (U "arrayPush") [AVar 1; AVar 6];                                             (* v1 = ["a","c"] *)
+    OCall (U "stringIndexOf") [c15_s (U "hello world"); c15_s (U "o"); ALit (VNum (NFlt (Z_to_sf 5)))];    (* 7 *)
+    OCall (U "stringLastIndexOf") [c15_s (U "hello world"); c15_s (U "o")];             (* 7 *)
+    OCall (U "stringSlice") [c15_s (U "hello world"); c15_i 6];                         (* "world" *)
+    OCall (U "stringReplace") [c15_s (U "a-b-c"); c15_s (U "-"); c15_s (U "+")];        (* "a+b+c" *)
+    OCall (U "stringRepeat") [c15_s (U "ab"); c15_i 3];                                 (* "ababab" *)
+    OCall (U "objectNew") [c15_s (U "k"); AVar 0];                                      (* v13 = {k: v0} *)
+    OCall (U "objectGet") [AVar 13; c15_s (U "k")];                                     (* v0 again *)
+    OCall (U "arrayLength") [AVar 14];                                                  (* 4 *)
+    OCall (U "stringCharCodeAt") [c15_s (U "A"); c15_i 0];                              (* 65 *)
+    OCall (U "stringFromCharCode") [c15_i 72; c15_i 105];                               (* "Hi" *)
+    OCall (U "stringIndexOf") [c15_s (U "abc"); c15_s (U "b"); ALit (VNum (NFlt (S754_infinity false)))];   (* null *)
+    OCall (U "stringIndexOf") [c15_s (U "abc"); c15_s (U "b"); c15_i 7];                (* -1 *)
+    OCall (U "stringSplit") [c15_s (U "abc"); c15_s (U "")];                            (* null *)
+    OCall (U "stringLength") [c15_i 5];                                                 (* 0 *)
+    OCall (U "stringStartsWith") [c15_s (U "hello"); c15_s (U "he")];
+    OCall (U "stringEndsWith") [c15_s (U "hello"); c15_s (U "lo")];
+    OCall (U "urlEncodeComponent") [c15_s (U "a b/c")];
+    OCall (U "regexEscape") [c15_s (U "a.b")];
+    OCall (U "stringLastIndexOf") [c15_s (U "abcabc"); c15_s (U "bc"); c15_i 3] ].      (* 1 *)
+Definition c15s_env : env :=
+  [VArr 0%nat; VArr 1%nat; VStr (U "  a"); VStr (U "a"); VArr 1%nat; VStr (U "c "); VStr (U "c"); VArr 1%nat; VNum (NInt 7);
+   VNum (NInt 7); VStr (U "world"); VStr (U "a+b+c"); VStr (U "ababab"); VObj 2%nat; VArr 0%nat; VNum (NInt 4); VNum (NInt 65);
+   VStr (U "Hi"); VNull; VNum (NInt (-1)); VNull; VNum (NInt 0); VBool true; VBool true; VStr (U "a%20b%2Fc"); VStr (U "a\00005c.b");
+   VNum (NInt 1)].
+Definition c15s_heap : heap :=
+  [CArr [VStr (U "  a"); VStr (U "b"); VStr (U ""); VStr (U "c ")]; CArr [VStr (U "a"); VStr (U "c")]; CObj [(U "k", VArr 0%nat)]].
+Example C15_history_with_strings_nonvacuous :
+  forallb op_in_OPS_s c15_hist_s = true
+  /\ run_ops c15_hist_s ([], []) = Some (c15s_env, c15s_heap)
+  /\ spec_run_s c15_hist_s ([], abs []) = Some (c15s_env, abs c15s_heap).
+Proof. vm_compute. repeat split; reflexivity. Qed.
+
+(* the string steps are PURE on the abstract machine, on ANY state and argument list: always defined, and either the state is
+   unchanged and the result is a scalar, or (stringSplit) exactly one fresh sequence of strings is bound and returned *)
+Theorem C15_string_steps_pure : forall f, in_tbl string_table f = true -> forall args m,
+  exists r m', call_in string_table f args m = Some (r, m') /\
+    ((m' = m /\ scalar_val (sres_value r) = true)
+     \/ (exists ps : list str, m' = m ++ [(length m, ASeq (map VStr ps))] /\ r = SOk (VArr (length m)))).
+Proof. exact string_table_pure. Qed.
+Print Assumptions C15_string_steps_pure.
+
+(* WELL-FORMED histories of OPS_S never get stuck (C15_history_results with the string functions): `wf_hist_s` = `wf_hist` with OPS_S *)
+Theorem C15_history_results_with_strings : forall ops e h, wf_state (e, h) = true -> wf_hist_s ops (e, h) = true ->
+  exists rs h', run_ops ops (e, h) = Some (e ++ rs, h') /\ spec_run_s ops (e, abs h) = Some (e ++ rs, abs h')
+                /\ length rs = length ops /\ wf_state (e ++ rs, h') = true /\ (length h <= length h')%nat.
+Proof. exact history_results_s. Qed.
+Print Assumptions C15_history_results_with_strings.
+Example C15_history_results_with_strings_nonvacuous : wf_state ([], []) = true /\ wf_hist_s c15_hist_s ([], []) = true.
+Proof. vm_compute. split; reflexivity. Qed.
+
+(* ====================================================================== HISTORY, third round: arrayIndexOf / arrayLastIndexOf
+   Proofs/C15spec2.v part B: `aeq m a b r` = "comparing a with b in the abstract state m terminates with answer r", an INDUCTIVE
+   relation (no fuel; a comparison that runs into a cycle has no derivation); `first_match` / `last_match` = the declarative
+   contracts (least position >= index / greatest position <= index whose element is aeq-equal to the needle, every position
+   passed over aeq-different, -1 if none); `search_out`, `callR`, `stepR`, `runR` = the abstract machine as a (deterministic)
+   RELATION for OPS_X = OPS_S + arrayIndexOf + arrayLastIndexOf (37 functions).
+   Design statement (NOT proved, false as it stands when the model gives up on a comparison between cyclic containers):
+     forall ops s, forallb op_in_OPS_x ops = true -> runR (abs_st s) ops (abs_st (fold_left run_op ops s)).
+   Proved: the same under `no_fuel ops s` (no call of the run answers LFuel), and: a search on a well-formed ACYCLIC heap never
+   answers LFuel. *)
+Theorem C15_veq_refines_aeq : forall fuel h a b r, veq fuel h a b = Some r -> aeq (abs h) a b r.
+Proof. exact veq_sound. Qed.
+Print Assumptions C15_veq_refines_aeq.
+Theorem C15_aeq_deterministic : forall m a b r r', aeq m a b r -> aeq m a b r' -> r = r'.
+Proof. exact aeq_det. Qed.
+Print Assumptions C15_aeq_deterministic.
+(* acyclic (some rank decreases along every stored reference) + well-formed: the model's fuel is enough *)
+Theorem C15_veq_answers_on_acyclic : forall h a b, heap_ok h = true -> acyclic h -> val_ok h a = true -> val_ok h b = true ->
+  veq (compare_fuel h) h a b <> None.
+Proof. exact veq_acyclic_answers. Qed.
+Print Assumptions C15_veq_answers_on_acyclic.
+
+(* STEP for the two searches, EVERY argument list (missing value = null, default / omitted / float-spelled / negative / inf index,
+   index >= length: -1, wrong types, extra arguments, a function as the needle: stuck on both sides), under "no LFuel" *)
+Theorem C15_search_step_partial : forall f rq, search_rq f = Some rq ->
+  forall args h, fst (lib f args h) <> LFuel -> search_out (abs h) (rq args (abs h)) (abs_call (lib f args h)).
+Proof. exact search_rq_refines. Qed.
+Print Assumptions C15_search_step_partial.
+Theorem C15_search_no_fuel_on_acyclic : forall f args h, is_search f = true -> heap_ok h = true -> acyclic h ->
+  forallb (val_ok h) args = true -> fst (lib f args h) <> LFuel.
+Proof. exact search_no_fuel_acyclic. Qed.
+Print Assumptions C15_search_no_fuel_on_acyclic.
+
+(* HISTORY for OPS_X under "no LFuel"; the relational machine is deterministic, and on OPS_S statements it IS spec_step_s *)
+Theorem C15_history_with_search_partial : forall ops s, forallb op_in_OPS_x ops = true -> no_fuel ops s ->
+  runR (abs_st s) ops (abs_st (fold_left run_op ops s)).
+Proof. exact history_search. Qed.
+Print Assumptions C15_history_with_search_partial.
+Theorem C15_relational_machine_deterministic : forall ops s a b, runR s ops a -> runR s ops b -> a = b.
+Proof. exact runR_det. Qed.
+Print Assumptions C15_relational_machine_deterministic.
+Theorem C15_relational_machine_extends : forall st o, op_in_OPS_s o = true -> stepR st o (spec_step_s st o).
+Proof. exact stepR_functional_on_OPS_s. Qed.
+Print Assumptions C15_relational_machine_extends.
+
+(* only the two searches can answer LFuel; a CHECKABLE sufficient condition for `no_fuel` (Proofs/C15spec3.v): `fuel_safe ops s`
+   (boolean, threaded through the run) = at every search call the heap is well-formed, `acyclic_b` (the nesting depth computed
+   with fuel = number of cells is a rank decreasing along every stored reference) and the arguments are well-formed *)
+Theorem C15_only_searches_give_up : forall f args h h', lib f args h = (LFuel, h') -> is_search f = true.
+Proof. exact only_searches_give_up. Qed.
+Print Assumptions C15_only_searches_give_up.
+Theorem C15_acyclic_check_sound : forall h, acyclic_b h = true -> acyclic h.
+Proof. exact acyclic_b_sound. Qed.
+Print Assumptions C15_acyclic_check_sound.
+Theorem C15_fuel_safe_no_fuel : forall ops st, fuel_safe ops st = true -> no_fuel ops st.
+Proof. exact fuel_safe_no_fuel. Qed.
+Print Assumptions C15_fuel_safe_no_fuel.
+Theorem C15_history_with_search_checked_partial : forall ops s, forallb op_in_OPS_x ops = true -> fuel_safe ops s = true ->
+  runR (abs_st s) ops (abs_st (fold_left run_op ops s)).
+Proof. exact history_search_checked. Qed.
+Print Assumptions C15_history_with_search_checked_partial.
+
+(* WELL-FORMED, fuel-safe histories of OPS_X (all 37 modelled functions) never get stuck.  `wf_hist_x` = `wf_hist` with OPS_X, and the
+   needle of a search is not a function (the callback form is outside the model).  (Full statement: without `fuel_safe`; false, see
+   C15_cyclic_search_gives_up.) *)
+Theorem C15_history_results_with_search_partial : forall ops e h, wf_state (e, h) = true -> wf_hist_x ops (e, h) = true ->
+  fuel_safe ops (Some (e, h)) = true ->
+  exists rs h', run_ops ops (e, h) = Some (e ++ rs, h') /\ runR (Some (e, abs h)) ops (Some (e ++ rs, abs h'))
+                /\ length rs = length ops /\ wf_state (e ++ rs, h') = true /\ (length h <= length h')%nat.
+Proof. exact history_results_x. Qed.
+Print Assumptions C15_history_results_with_search_partial.
+
+(* non-vacuity 1: 21 statements: split a string, push, search strings in the split result (first / from an index / last / last
+   up to a float-spelled index / absent), DEEP searches (a copy of an array found inside another array; a copy of an object found
+   by arrayLastIndexOf), slice, trim, failures (index >= length, wrong type, inf index).  Model by vm_compute; no call answers
+   LFuel; the abstract relational run exists and every abstract run ends in the abstraction of the model's final state. *)
+Definition c15_hist_x : list op :=
+  [ OCall (U "stringSplit") [c15_s (U "b,a,b,c"); c15_s (U ",")];                      (* v0 = ["b","a","b","c"] *)
+    OCall (U "arrayNew") [];                                                            (* v1 *)
+    OCall (U "arrayGet") [AVar 0; c15_i 1];                                             (* "a" *)
+    OCall (U "arrayPush") [AVar 1; AVar 2; c15_s (U "z")];                              (* v1 = ["a","z"] *)
+    OCall (U "arrayIndexOf") [AVar 0; c15_s (U "b")];                                   (* 0 *)
+    OCall (U "arrayIndexOf") [AVar 0; c15_s (U "b"); c15_i 1];                          (* 2 *)
+    OCall (U "arrayLastIndexOf") [AVar 0; c15_s (U "b")];                               (* 2 *)
+    OCall (U "arrayLastIndexOf") [AVar 0; c15_s (U "b"); ALit (VNum (NFlt (Z_to_sf 1)))];   (* 0 *)
+    OCall (U "arrayIndexOf") [AVar 0; c15_s (U "q")];                                   (* -1 *)
+    OCall (U "arrayNew") [AVar 1; c15_i 5];                                             (* v9 = [v1, 5] *)
+    OCall (U "arrayCopy") [AVar 1];                                                     (* v10 = fresh ["a","z"] *)
+    OCall (U "arrayIndexOf") [AVar 9; AVar 10];                                         (* 0: deep equality *)
+    OCall (U "stringSlice") [c15_s (U "hello world"); c15_i 6];
+    OCall (U "stringTrim") [c15_s (U "  x ")];
+    OCall (U "objectNew") [c15_s (U "k"); AVar 1];                                      (* v14 = {k: v1} *)
+    OCall (U "objectCopy") [AVar 14];                                                   (* v15 *)
+    OCall (U "arrayNew") [AVar 14];                                                     (* v16 = [v14] *)
+    OCall (U "arrayLastIndexOf") [AVar 16; AVar 15];                                    (* 0: deep equality of objects *)
+    OCall (U "arrayIndexOf") [AVar 0; c15_s (U "b"); c15_i 9];                          (* -1: index >= length *)
+    OCall (U "arrayIndexOf") [c15_i 5; c15_s (U "b")];                                  (* -1: wrong type *)
+    OCall (U "arrayIndexOf") [AVar 9; c15_i 5; ALit (VNum (NFlt (S754_infinity false)))] ].   (* null: int(inf) raises *)
+Definition c15x_env : env :=
+  [VArr 0%nat; VArr 1%nat; VStr (U "a"); VArr 1%nat; VNum (NInt 0); VNum (NInt 2); VNum (NInt 2); VNum (NInt 0); VNum (NInt (-1));
+   VArr 2%nat; VArr 3%nat; VNum (NInt 0); VStr (U "world"); VStr (U "x"); VObj 4%nat; VObj 5%nat; VArr 6%nat; VNum (NInt 0);
+   VNum (NInt (-1)); VNum (NInt (-1)); VNull].
+Definition c15x_heap : heap :=
+  [CArr [VStr (U "b"); VStr (U "a"); VStr (U "b"); VStr (U "c")]; CArr [VStr (U "a"); VStr (U "z")]; CArr [VArr 1%nat; VNum (NInt 5)];
+   CArr [VStr (U "a"); VStr (U "z")]; CObj [(U "k", VArr 1%nat)]; CObj [(U "k", VArr 1%nat)]; CArr [VObj 4%nat]].
+Example C15_history_with_search_nonvacuous :
+  forallb op_in_OPS_x c15_hist_x = true /\ wf_hist_x c15_hist_x ([], []) = true
+  /\ fuel_safe c15_hist_x (Some ([], [])) = true /\ no_fuel c15_hist_x (Some ([], []))
+  /\ run_ops c15_hist_x ([], []) = Some (c15x_env, c15x_heap)
+  /\ runR (Some ([], abs [])) c15_hist_x (Some (c15x_env, abs c15x_heap))
+  /\ forall st, runR (Some ([], abs [])) c15_hist_x st -> st = Some (c15x_env, abs c15x_heap).
+Proof.
+  assert (O : forallb op_in_OPS_x c15_hist_x = true) by (vm_compute; reflexivity).
+  assert (FS : fuel_safe c15_hist_x (Some ([], [])) = true) by (vm_compute; reflexivity).
+  assert (NF : no_fuel c15_hist_x (Some ([], []))) by (apply fuel_safe_no_fuel; exact FS).
+  assert (R : run_ops c15_hist_x ([], []) = Some (c15x_env, c15x_heap)) by (vm_compute; reflexivity).
+  assert (H : runR (Some ([], abs [])) c15_hist_x (Some (c15x_env, abs c15x_heap))).
+  { vm_cast_no_check (history_search c15_hist_x (Some ([], [])) O NF). }
+  split; [exact O|]. split; [vm_compute; reflexivity|]. split; [exact FS|]. split; [exact NF|]. split; [exact R|]. split; [exact H|].
+  intros st H'. exact (runR_det _ _ _ _ H' H).
+Qed.
+Print Assumptions C15_history_with_search_nonvacuous.
+(* non-vacuity 2: a well-formed acyclic heap with nested containers (hypotheses of C15_search_no_fuel_on_acyclic) *)
+Example C15_acyclic_nonvacuous : heap_ok c15x_heap = true /\ acyclic_b c15x_heap = true /\ acyclic c15x_heap.
+Proof.
+  split; [vm_compute; reflexivity|]. split; [vm_compute; reflexivity|]. exists (fun l => l).
+  intros l c x l' G I V.
+  do 7 (destruct l as [|l]; [simpl in G; inversion G; subst c; simpl in I;
+                             repeat (destruct I as [<-|I]; [simpl in V; try discriminate; inversion V; subst; auto with arith|]); contradiction|]).
+  destruct l; discriminate.
+Qed.
+(* non-vacuity 3 (the side condition is needed): two self-containing arrays; the model's comparison gives up *)
+Example C15_cyclic_search_gives_up :
+  fst (lib (U "arrayIndexOf") [VArr 0%nat; VArr 1%nat] [CArr [VArr 0%nat]; CArr [VArr 1%nat]]) = LFuel.
+Proof. vm_compute. reflexivity. Qed.
